@@ -112,6 +112,9 @@ impl Prop for C18 {
         let c = gen_table(&mut rng, &cn, &kinds3, 4);
         let outer = ["left", "right", "full", "inner"];
         let (o1, o2) = (outer[i / 2 % 4], outer[(i / 8 + i / 2) % 4]);
+        // an unparenthesised chain of two table operators (all six kinds) groups from the left
+        { let all6 = ["inner", "left", "right", "full", "semi", "anti"]; let (c1, c2) = (all6[(i / 2) % 6], all6[(i / 2 + i / 12 + 1) % 6]);
+          out.push(Case { id: format!("join2;op1={};op2={};form=chain;n={}", c1, c2, i), cell: format!("join2;op1={};op2={};form=chain", c1, c2), input: json!({"mode": "join2", "a": a, "b": b, "c": c, "op1": c1, "op2": c2, "form": "chain"}) }); }
         for form in ["vars", "inline"] { out.push(Case { id: format!("join2;op1={};op2={};form={};n={}", o1, o2, form, i), cell: format!("join2;op1={};op2={};form={}", o1, o2, form), input: json!({"mode": "join2", "a": a, "b": b, "c": c, "op1": o1, "op2": o2, "form": form}) }); }
       }
       // row selection on A
@@ -174,10 +177,10 @@ impl Prop for C18 {
         if rows1.is_empty() { return Outcome::trivial().tag("empty-intermediate"); }
         // the intermediate result as a table of the reference (columns of A, then the columns only B has)
         let mut cols1: Vec<(String, String)> = Vec::new();
-        for (n, _) in a.cols.iter().chain(b.cols.iter()) { if !cols1.iter().any(|(m, _)| m == n) { cols1.push((n.clone(), kinds1[n].clone())); } }
+        for (n, _) in a.cols.iter().chain(b.cols.iter()) { if !cols1.iter().any(|(m, _)| m == n) && kinds1.contains_key(n) { cols1.push((n.clone(), kinds1[n].clone())); } }
         let k = Tab { cols: cols1.clone(), rows: rows1.iter().map(|r| cols1.iter().map(|(n, _)| r[n].clone()).collect()).collect() };
         let (mut want, kinds) = ref_join(op2, &k, &c);
-        let src = if form == "vars" { format!("K := A {} B\nJ := K {} C", sym(op1), sym(op2)) } else { format!("J := (A {} B) {} C", sym(op1), sym(op2)) };
+        let src = if form == "vars" { format!("K := A {} B\nJ := K {} C", sym(op1), sym(op2)) } else if form == "chain" { format!("J := A {} B {} C", sym(op1), sym(op2)) } else { format!("J := (A {} B) {} C", sym(op1), sym(op2)) };
         let res = s.eval(&src);
         let ctx = || format!("A := {}\nB := {}\nC := {}\n{}", a.literal(), b.literal(), c.literal(), src);
         match &res {
@@ -197,16 +200,22 @@ impl Prop for C18 {
       }
       "select" => {
         let rows = rows_of(&a);
+        // the kind of the index literals and whether the index is written inline or held in a variable rotate with the case
+        let h = case.id.bytes().fold(0xcbf29ce484222325u64, |h, b| (h ^ b as u64).wrapping_mul(0x100000001b3));
+        let ik = ["", "", "u8", "u16", "u32", "u64", "u128"][(h % 7) as usize];
+        let via_var = (h >> 8) % 3 == 0;
+        let nn = |i: &usize| format!("{}{}", i, ik);
+        let hoist = |s: &mut Sess, txt: String| -> String { if via_var && s.eval(&format!("ixv := {}", txt)).is_ok() { "ixv".to_string() } else { txt } };
         let (src, want): (String, Vec<Row>) = match case.input["form"].as_str().unwrap() {
-          "scalar" => { let i = case.input["idx"][0].as_u64().unwrap() as usize; (format!("A[{}]", i), vec![rows[i - 1].clone()]) }
-          "vector" => { let idx: Vec<usize> = serde_json::from_value(case.input["idx"].clone()).unwrap(); (format!("A[[{}]]", idx.iter().map(|i| i.to_string()).collect::<Vec<_>>().join(" ")), idx.iter().map(|i| rows[i - 1].clone()).collect()) }
+          "scalar" => { let i = case.input["idx"][0].as_u64().unwrap() as usize; let t = hoist(&mut s, nn(&i)); (format!("A[{}]", t), vec![rows[i - 1].clone()]) }
+          "vector" => { let idx: Vec<usize> = serde_json::from_value(case.input["idx"].clone()).unwrap(); let t = hoist(&mut s, format!("[{}]", idx.iter().map(nn).collect::<Vec<_>>().join(" "))); (format!("A[{}]", t), idx.iter().map(|i| rows[i - 1].clone()).collect()) }
           "chain-vv" => { let idx: Vec<usize> = serde_json::from_value(case.input["idx"].clone()).unwrap(); let idx2: Vec<usize> = serde_json::from_value(case.input["idx2"].clone()).unwrap();
             let f = |v: &Vec<usize>| v.iter().map(|i| i.to_string()).collect::<Vec<_>>().join(" ");
             (format!("A[[{}]][[{}]]", f(&idx), f(&idx2)), idx2.iter().map(|j| rows[idx[j - 1] - 1].clone()).collect()) }
           "chain-mv" => { let m: Vec<bool> = serde_json::from_value(case.input["mask"].clone()).unwrap(); let idx2: Vec<usize> = serde_json::from_value(case.input["idx2"].clone()).unwrap();
             let kept: Vec<Row> = rows.iter().zip(m.iter()).filter(|(_, b)| **b).map(|(r, _)| r.clone()).collect();
             (format!("A[[{}]][[{}]]", m.iter().map(|b| b.to_string()).collect::<Vec<_>>().join(" "), idx2.iter().map(|i| i.to_string()).collect::<Vec<_>>().join(" ")), idx2.iter().map(|j| kept[j - 1].clone()).collect()) }
-          _ => { let m: Vec<bool> = serde_json::from_value(case.input["mask"].clone()).unwrap(); (format!("A[[{}]]", m.iter().map(|b| b.to_string()).collect::<Vec<_>>().join(" ")), rows.iter().zip(m.iter()).filter(|(_, b)| **b).map(|(r, _)| r.clone()).collect()) }
+          _ => { let m: Vec<bool> = serde_json::from_value(case.input["mask"].clone()).unwrap(); let t = hoist(&mut s, format!("[{}]", m.iter().map(|b| b.to_string()).collect::<Vec<_>>().join(" "))); (format!("A[{}]", t), rows.iter().zip(m.iter()).filter(|(_, b)| **b).map(|(r, _)| r.clone()).collect()) }
         };
         let res = s.eval(&src);
         let ctx = || format!("A := {}\n{}", a.literal(), src);
